@@ -102,6 +102,17 @@ def gen_stack_cases(rng, tier):
         stream = b"".join(pieces) + E.frame(b"after-auth-attempt")
         cuts = E.few_cuts(rng, len(stream)) if rng.random() < 0.5 else "-"
         cases.append(["rawpeer %s %s %s" % (E.cfg_str(c), E.hexspec(stream), cuts)])
+    # the mechanism is configured through the PUBLIC socket options here (ZmtpEngineConfig::from(&SocketOptions) is part of
+    # what is tested): a CURVE-only or NOISE-only socket must refuse NULL / PLAIN / ZMTP-2.0 peers just as well
+    for i in range(n // 2):
+        mech = rng.choice(["curve", "noise"])
+        c = {"role": rng.choice(["s", "s", "c"]), "type": rng.choice(["PULL", "SUB", "DEALER"]), mech: 1, "sec": 1}
+        if rng.random() < 0.3:
+            c["zmtp2"] = rng.choice([0, 1])
+        pieces, authed, _ = attacker_stream(rng, c, know_creds=False)
+        stream = b"".join(pieces) + E.frame(b"after-auth-attempt")
+        cuts = E.few_cuts(rng, len(stream)) if rng.random() < 0.5 else "-"
+        cases.append(["rawpeer %s %s %s" % (E.cfg_str(c), E.hexspec(stream), cuts)])
     # positive control: the right credentials do get through (keeps the scenario honest)
     c = {"role": "s", "type": "PULL", "plain": 1, "sec": 1, "user": "h75736572", "pass": "h70617373"}
     hs = b"".join(b for _, b in E.peer_handshake(rng, c)) + E.frame(b"ok")
@@ -135,7 +146,7 @@ SPEC = {
             "revision in {1,2,3,4,0x7f}, mechanism field in {NULL,PLAIN,CURVE,NOISE_XX,GSSAPI,empty}, as-server bit, then up to 5 of "
             "{HELLO(wrong creds; 15% of PLAIN-server cases know the creds as positive control), READY, WELCOME, INITIATE, ERROR, unknown "
             "command, data frame, empty frame}, random segmentation; oracle: no HandshakeComplete/Deliver/data phase for a peer that "
-            "did not authenticate; stack: the same grammar over TCP against a real PLAIN listener; non-trivial = the engine produced an "
+            "did not authenticate; stack: the same grammar over TCP against real sockets configured through the public options with PLAIN, CURVE-only or NOISE-only; non-trivial = the engine produced an "
             "error or a handshake",
     "assumptions": ["cryptographic soundness of CURVE/NOISE is an explicit parameter (AbsSpec) of the theorems, not proved",
                     "PLAIN has no server authentication: a PLAIN client completes after any WELCOME (as the RFC specifies)"],
